@@ -118,12 +118,53 @@ Example C06_nonvacuous :
 Proof. vm_compute. repeat split; reflexivity. Qed.
 
 (* float casts are modelled by integer arithmetic (Serdes/Float.v: round to nearest even, clamp to +-max finite when saturated,
-   +-infinity on overflow when truncated, NaN and infinities pass) and compared bit-exactly with struct.pack on every case; the
-   range fact below is what the round trip needs.  The rounding function itself is not verified against IEEE 754 (trusted base). *)
-From PV Require Import Serdes.Float Serdes.FloatProofs.
-Theorem C06_cast_float_range_partial : forall c w b, w = 16 \/ w = 32 \/ w = 64 -> 0 <= fcast c w b < 2 ^ w.
+   +-infinity on overflow when truncated, NaN and infinities pass) and compared bit-exactly with struct.pack on every case.
+   PROVED (Serdes/FloatIdem.v, arithmetic on the integer model, binary16/32/64, both cast modes): every non-NaN value of the
+   field's format - zero, subnormal, normal, infinite, either sign - is a fixed point of the cast (what "representable values are
+   encoded exactly" means); NaN becomes the canonical quiet NaN; the written pattern is a w-bit number; decoding a pattern and
+   encoding it again is the identity.
+   The saturated mode never yields an infinity from a finite value (Serdes/FloatSat.v).
+   PARTIAL - not proved: that for non-representable values fcast returns the nearest neighbour / is monotone, and that the
+   truncated mode yields infinity exactly from max + ulp/2 on;
+   these are covered by the bit-exact comparison with struct.pack (FLOAT_SPECIALS boundary values at every width and cast mode in
+   every run) and by the concrete boundary cases below. *)
+From PV Require Import Serdes.Float Serdes.FloatProofs Serdes.FloatIdem Serdes.FloatSat.
+Theorem C06_cast_float_range : forall c w b, w = 16 \/ w = 32 \/ w = 64 -> 0 <= fcast c w b < 2 ^ w.
 Proof. exact fcast_range. Qed.
-Print Assumptions C06_cast_float_range_partial.
+Print Assumptions C06_cast_float_range.
+
+Theorem C06_cast_float_representable_partial : forall w c bits, w = 16 \/ w = 32 \/ w = 64 -> 0 <= bits < 2 ^ w -> fdecode w bits <> FNaN ->
+  fcast c w (fwiden w bits) = bits.
+Proof. exact cast_representable. Qed.
+Print Assumptions C06_cast_float_representable_partial.
+
+(* saturated: a finite Python float never becomes an infinity (the pattern written has the sign of the value and an exponent field
+   below all-ones) *)
+Theorem C06_cast_float_saturated : forall w b s m e, w = 16 \/ w = 32 \/ w = 64 -> fdecode 64 b = FFin s m e ->
+  fcast Sat w b < f_sign w s + f_inf w.
+Proof. exact sat_never_inf. Qed.
+Print Assumptions C06_cast_float_saturated.
+
+Theorem C06_cast_float_nan_inf : forall c w s, w = 16 \/ w = 32 \/ w = 64 ->
+  fcast c w (fencode 64 FNaN) = f_nan w /\ fcast c w (fencode 64 (FInf s)) = fencode w (FInf s).
+Proof. intros c w s H. split; [apply cast_nan|apply cast_inf]; exact H. Qed.
+Print Assumptions C06_cast_float_nan_inf.
+
+Theorem C06_float_decode_encode : forall w bits, w = 16 \/ w = 32 \/ w = 64 -> 0 <= bits < 2 ^ w -> fdecode w bits <> FNaN ->
+  fencode w (fdecode w bits) = bits.
+Proof.
+  intros w bits [ -> | [ -> | -> ] ] Hb Hn; [pose proof (dec_enc_16 bits Hb) as D|pose proof (dec_enc_32 bits Hb) as D|pose proof (dec_enc_64 bits Hb) as D];
+    destruct (fdecode _ bits); try congruence; apply D.
+Qed.
+Print Assumptions C06_float_decode_encode.
+
+(* REMARK / refuted assumption.  The delimiter header is 32 bits wide and holds the BYTE length of the nested object.  write_bits
+   keeps the low 32 bits only, so an inner representation of 2^32 bytes or more would get a header that is too small (pydsdl does
+   the same: value & mask).  This is why [validb] of a delimited type carries the conjunct "the byte length fits the header";
+   C06_inner_within_extent shows the conjunct is implied by extent < 2^35 bits.  Witness at the writer level: *)
+Theorem C06_header_wraps_refuted : exists n, 2 ^ 32 <= n /\ w_finish (write_bits w_new n 32) = w_finish (write_bits w_new (n - 2 ^ 32) 32).
+Proof. exists (2 ^ 32 + 5). split; [vm_compute; discriminate|vm_compute; reflexivity]. Qed.
+Print Assumptions C06_header_wraps_refuted.
 
 Example C06_float_cases :
   (* 65520.0 is the rounding boundary of binary16: truncated -> +inf, saturated -> 65504 = 0x7BFF; just below rounds to 65504 *)
